@@ -156,6 +156,40 @@ type World struct {
 	Stderr *Writer
 	C      Counters
 	Opened []string
+	// Env is the simulated process environment; EnvAsked records (in order, once each)
+	// every variable name the program looked up.
+	Env      map[string]string
+	EnvAsked []string
+}
+
+// Getenv is the simulated os.LookupEnv.
+func (w *World) Getenv(key string) (string, bool) {
+	seen := false
+	for _, k := range w.EnvAsked {
+		if k == key {
+			seen = true
+			break
+		}
+	}
+	if !seen && len(w.EnvAsked) < 64 {
+		w.EnvAsked = append(w.EnvAsked, key)
+	}
+	v, ok := w.Env[key]
+	return v, ok
+}
+
+// Environ is the simulated os.Environ (sorted by name).
+func (w *World) Environ() []string {
+	var out []string
+	for k, v := range w.Env {
+		out = append(out, k+"="+v)
+	}
+	for i := 1; i < len(out); i++ {
+		for j := i; j > 0 && out[j] < out[j-1]; j-- {
+			out[j], out[j-1] = out[j-1], out[j]
+		}
+	}
+	return out
 }
 
 // W is the world of the run in progress.
